@@ -43,6 +43,7 @@ func cdxFlow(c *Ctx) {
 	} else {
 		c.undecided(R, "cdx-external-reference#anchor", "-", "external-reference loops not found")
 	}
+	identifierSlots(c, wr, rd)
 	c.floor(R, 15, "11 component attributes and 4 external-reference fields")
 
 	// document level (textual provenance inside Serialize / Unserialize)
@@ -162,5 +163,84 @@ func cdxTreeAssembly(c *Ctx, prop string) {
 	}
 	if n == 0 {
 		c.ok(R, "cdx-serializer", "-", "no by-value copy of a dictionary entry in a loop that still mutates the dictionary")
+	}
+}
+
+// identifierSlots: each software-identifier type CycloneDX can carry has its own component field:
+// PURL ↔ PackageURL, CPE22/CPE23 ↔ CPE. The writer assigns the field inside the switch clause of
+// that identifier type, the reader stores the field under that type's key.
+func identifierSlots(c *Ctx, wr, rd *declInfo) {
+	const R = "round-trip-path"
+	slots := []struct{ idConst, field string }{
+		{"SoftwareIdentifierType_PURL", "PackageURL"},
+		{"SoftwareIdentifierType_CPE23", "CPE"},
+		{"SoftwareIdentifierType_CPE22", "CPE"},
+	}
+	for _, sl := range slots {
+		construct := "cdx-component#Identifiers[" + strings.TrimPrefix(sl.idConst, "SoftwareIdentifierType_") + "]"
+		// writer: assignment to c.<field> inside a case clause naming the constant, value from n.Identifiers
+		wOK := false
+		ast.Inspect(wr.fd.Body, func(n ast.Node) bool {
+			cc, ok := n.(*ast.CaseClause)
+			if !ok {
+				return true
+			}
+			names := exprText(c.P.Fset, &ast.BlockStmt{List: []ast.Stmt{&ast.ExprStmt{X: &ast.CompositeLit{Elts: cc.List}}}})
+			if !strings.Contains(names, sl.idConst) {
+				return true
+			}
+			for _, st := range cc.Body {
+				ast.Inspect(st, func(m ast.Node) bool {
+					if as, ok := m.(*ast.AssignStmt); ok && len(as.Lhs) == 1 && len(as.Rhs) == 1 {
+						if sel, ok := as.Lhs[0].(*ast.SelectorExpr); ok && sel.Sel.Name == sl.field && strings.Contains(types.ExprString(as.Rhs[0]), "Identifiers[") {
+							wOK = true
+						}
+					}
+					return true
+				})
+			}
+			return true
+		})
+		// reader: node.Identifiers[…<const>…] = c.<field> (the key may be a local set to the constant)
+		rOK := false
+		ast.Inspect(rd.fd.Body, func(n ast.Node) bool {
+			as, ok := n.(*ast.AssignStmt)
+			if !ok || len(as.Lhs) != 1 || len(as.Rhs) != 1 {
+				return true
+			}
+			ix, ok := as.Lhs[0].(*ast.IndexExpr)
+			if !ok || !strings.HasSuffix(types.ExprString(ix.X), "Identifiers") {
+				return true
+			}
+			if !strings.HasSuffix(types.ExprString(as.Rhs[0]), "."+sl.field) {
+				return true
+			}
+			key := types.ExprString(ix.Index)
+			if strings.Contains(key, sl.idConst) {
+				rOK = true
+				return true
+			}
+			// key through a local: t := CPE22; if … { t = CPE23 }
+			ast.Inspect(ix.Index, func(m ast.Node) bool {
+				if id, ok := m.(*ast.Ident); ok {
+					if o := objOf(rd.pkg, id); o != nil {
+						ast.Inspect(rd.fd.Body, func(k ast.Node) bool {
+							if a2, ok := k.(*ast.AssignStmt); ok {
+								for i, l := range a2.Lhs {
+									if objOf(rd.pkg, l) == o && i < len(a2.Rhs) && strings.Contains(types.ExprString(a2.Rhs[i]), sl.idConst) {
+										rOK = true
+									}
+								}
+							}
+							return true
+						})
+					}
+				}
+				return true
+			})
+			return true
+		})
+		c.check(wOK && rOK, R, construct, c.P.Pos(wr.fd.Pos()), sl.idConst+" ↔ "+sl.field,
+			fmt.Sprintf("identifier type %s has no round-trip path through component field %s (written under its case clause: %v, read back under its key: %v)", sl.idConst, sl.field, wOK, rOK))
 	}
 }
